@@ -368,7 +368,7 @@ impl<'t> Interp<'t> {
             } else {
                 "chunk ranges differ".to_string()
             };
-            self.viol(if self.akind == 0 { "C10/any-mismatch" } else { "C10/any-mismatch-nonzst-allocator" }, what);
+            self.viol("C10/any-mismatch", what);
         }
     }
 
